@@ -26,6 +26,8 @@ def owners(op, clause):
         o |= {"C03", "C10"}
     if op == "set" and clause.startswith("set:other-object-changed"):
         o |= {"C10", "C03"}
+    if op == "new" and (clause.startswith("read:") or clause.startswith("ref:new-target-value")):
+        o |= {"C01"}          # a nested accessor of the object just built does not return the value it was built from
     return o
 
 
@@ -181,6 +183,10 @@ def prog_construct(w, rng, refs=True):
         keys.append(k)
         if rng.random() < 0.25:
             w.grow(rng.randrange(2))
+        if rng.random() < 0.35:
+            # objects that later constructions may take as input (aliases, foreign objects, nested xobject values) change in between
+            if w.set(rng.choice(list(w.handles)), allow=("null", "alias", "new")) is False and w.steps[-1].get("exc"):
+                return
 
 
 def prog_set(w, rng, refs=True, allow=("null", "alias", "new", "foreign")):
@@ -339,6 +345,45 @@ def prog_pickle(w, rng):
             w.grow(rng.choice(twins)[0])
 
 
+def prog_repeat(w, rng):
+    """C01 / C08: the same kind of object is built repeatedly from the same input objects (existing objects of the holder's
+    buffer, objects of another buffer) while those input objects change in between: every construction must reflect the
+    input as it is at that moment"""
+    for _ in range(30):
+        tx = pick_type(rng, True)
+        if X.has_refs(tx):
+            break
+    else:
+        return
+    targets = []
+
+    def collect(t):
+        if t["k"] == "ref":
+            targets.append(t["to"])
+        elif t["k"] == "uref":
+            targets.extend(t["of"])
+        elif t["k"] == "struct":
+            for f in t["f"]:
+                collect(f)
+        elif t["k"] == "arr":
+            collect(t["it"])
+    collect(tx)
+    b = rng.randrange(2)
+    cands = []
+    for t in targets[:2]:
+        for bb in (b, 1 - b):
+            k = w.new(t, bb, allow=("null", "new"))
+            if k is None:
+                return
+            cands.append(k)
+    for n in range(rng.randint(2, 3)):
+        if w.new(tx, b, allow=("alias", "foreign", "foreign", "new", "null")) is None:
+            return
+        for _ in range(rng.randint(1, 2)):
+            if w.set(rng.choice(cands), allow=("null", "new")) is False and w.steps[-1].get("exc"):
+                return
+
+
 _TABLES = [X.struct(I64, X.arr(X.arr(F64, [-1]), [-1])), X.struct(X.arr(X.STR, [-1]), I8),
            X.arr(X.arr(X.arr(I16, [-1]), [-1]), [2]), X.struct(I8, X.arr(X.struct(I8, X.STR), [-1, 2], [1, 0])),
            X.arr(X.struct(X.arr(X.STR, [-1]), F64), [-1])]
@@ -377,12 +422,12 @@ def prog_view_copy(w, rng):
 
 
 PROGRAMS = {
-    "C01": lambda w, rng: prog_construct(w, rng),
+    "C01": lambda w, rng: (prog_repeat if rng.random() < 0.2 else prog_construct)(w, rng),
     "C05": lambda w, rng: (prog_construct if rng.random() < 0.6 else prog_copy)(w, rng),      # copy-construction writes objects too
     "C03": lambda w, rng: (prog_construct if rng.random() < 0.4 else prog_set)(w, rng),
     "C06": lambda w, rng: (prog_construct if rng.random() < 0.2 else (prog_view_copy if rng.random() < 0.25 else (prog_set if rng.random() < 0.6 else prog_copy)))(w, rng),
     "C10": lambda w, rng: prog_set(w, rng),
-    "C08": prog_refs,
+    "C08": lambda w, rng: (prog_repeat if rng.random() < 0.15 else prog_refs)(w, rng),
     "C11": prog_err,
     "C20": prog_pickle,
     "C09": lambda w, rng: (prog_view_copy if rng.random() < 0.15 else prog_copy)(w, rng),
